@@ -244,6 +244,17 @@ def gen_payload(rng, enc, wild):
     return {"k": "lines", "v": out}
 
 
+def payload_encodable(p, enc):
+    k, v = p["k"], p["v"]
+    if k in ("str", "other"):
+        return encodable(str(v), enc)
+    if k == "dict":
+        return all(encodable("%s%s" % (a, b), enc) for a, b in v)
+    if k == "lines":
+        return all(encodable(str(x), enc) for t, x in v if t != "b")
+    return True
+
+
 WILD_MODES = ["t", "b", "wt", "wb", "at", "a", "w", "ab", "t+", "b+", "wb+", "w+b", "at+", "", "tb", "wtt", "wz", "aw", "a", "w", "ab", "wb+", "", "+"]
 READ_MODES = ["t", "t", "t", "b", "b", "", "rt", "rb", "t+", "tb", "tz"]
 
@@ -264,11 +275,17 @@ def gen_hist(rng):
             eol = rng.choice(EOLS)
         r = rng.random() if exists else 0.0
         if r < 0.55:
+            first = not exists
             mode = rng.choice(SAVE_MODES) if rng.random() < 0.8 or not exists else rng.choice(WILD_MODES)
             if rng.random() < 0.01:
                 mode = rng.choice(["x", "r", "r+"])   # outside the model (answered `unsupported`)
             exists = True
             op = {"op": "S", "enc": enc, "mode": mode, "eol": eol, "payload": gen_payload(rng, enc, True)}
+            if first:   # the first save of a missing file should create it: keep later loads inside the model
+                for _ in range(10):
+                    if payload_encodable(op["payload"], enc):
+                        break
+                    op["payload"] = gen_payload(rng, enc, True)
             if op["payload"]["k"] == "dict" and rng.random() < 0.3:
                 op["tag"] = rng.choice([": ", "", "=="])
             ops.append(op)
